@@ -72,16 +72,26 @@ class C10(ProgramProperty):
             steps.append({"op": "sub", "dst": D, "src": 0, "prefixes": [cps(x) for x in rng.sample(pa, min(2, len(pa)))]})
         elif kind == "remap_curie":
             keys = rng.sample(pa, min(2, len(pa)))
-            steps.append({"op": "remap_curie", "dst": D, "src": 0,
-                          "mapping": [[cps(k), cps("R" + str(i) + k)] for i, k in enumerate(keys)]})
+            mapping = [[cps(k), cps("R" + str(i) + k)] for i, k in enumerate(keys)]
+            if len(a) > 1 and rng.random() < 0.6:
+                # a pair that is skipped as a clash: its target belongs to another record
+                x, y = rng.sample(a, 2)
+                mapping = [[x["p"], y["p"]]] + [m for m in mapping if m[0] != x["p"]][:1]
+            steps.append({"op": "remap_curie", "dst": D, "src": 0, "mapping": mapping})
         elif kind == "remap_uri":
             keys = rng.sample(ua, min(2, len(ua)))
-            steps.append({"op": "remap_uri", "dst": D, "src": 0,
-                          "mapping": [[cps(k), cps("http://moved.example/" + str(i) + "/")] for i, k in enumerate(keys)]})
+            mapping = [[cps(k), cps("http://moved.example/" + str(i) + "/")] for i, k in enumerate(keys)]
+            if len(a) > 1 and rng.random() < 0.6:
+                x, y = rng.sample(a, 2)     # clash: the new URI prefix is owned by another record (no-op branch)
+                mapping = [[x["u"], y["u"]]]
+            steps.append({"op": "remap_uri", "dst": D, "src": 0, "mapping": mapping})
         elif kind == "rewire":
             keys = rng.sample(pa, min(2, len(pa)))
-            steps.append({"op": "rewire", "dst": D, "src": 0,
-                          "mapping": [[cps(k), cps("http://rewired.example/" + str(i) + "/")] for i, k in enumerate(keys)]})
+            mapping = [[cps(k), cps("http://rewired.example/" + str(i) + "/")] for i, k in enumerate(keys)]
+            if len(a) > 1 and rng.random() < 0.6:
+                x, y = rng.sample(a, 2)     # clash / already-canonical: no-op branches
+                mapping = [[x["p"], rng.choice([y["u"], x["u"]])]]
+            steps.append({"op": "rewire", "dst": D, "src": 0, "mapping": mapping})
         else:
             uris = [u + "123" for u in ua[:2]] + ["http://disc.example/a_1", "http://disc.example/a_2"]
             steps.append({"op": "discover", "dst": D, "src": 0, "uris": [cps(u) for u in uris], "delims": [],
